@@ -226,9 +226,38 @@ def _check_override(ck, fi, cfg, rd, w: Node, attr: str):
             ck.unknown("C02.b", fi, n.ast, f"saved value of self.{attr} is rebound after the override; cannot follow")
             return
 
+    # facts that hold at the write (E-GUARD) and whose names are not rebound afterwards
+    # keep holding on every path from the write: a later test on the same fact
+    # can only take the consistent edge
+    from .sem import conds_at
+    from engine.guards import atoms
+
+    try:
+        facts = dict(conds_at(ck.repo, fi, w.ast))
+    except Exception:
+        facts = {}
+    redefined = set()
+    for n in cfg.nodes:
+        if n.id in reach_from_w and n is not w:
+            redefined |= defs_of_node(n)
+    if is_self_attr(w.ast.targets[0] if isinstance(w.ast, ast.Assign) else getattr(w.ast, "target", None)):
+        pass
+
     def follow(a: Node, lab: str, b: Node) -> bool:
         # path correlation: the saved variable holds the (truthy) old value on
         # every path from the write, so `if saved:` cannot take its false edge
+        if a.kind == "test" and a.ast is not None and facts and lab in ("true", "false"):
+            try:
+                at = list(atoms(a.ast, True))
+            except Exception:
+                at = []
+            if len(at) == 1:
+                txt, pol_true = at[0]
+                names = {x.id for x in ast.walk(a.ast) if isinstance(x, ast.Name)}
+                mentions_attr = any(is_self_attr(x, attr) for x in ast.walk(a.ast))
+                if txt in facts and not (names & redefined) and not mentions_attr:
+                    holds_true_edge = facts[txt] == pol_true
+                    return (lab == "true") == holds_true_edge
         if a.kind == "test" and a.ast is not None:
             t = a.ast
             pol = True
